@@ -484,7 +484,8 @@ class IntervalDomain(Domain):
         if fname == ".astype" and len(args) == 2:
             t = args[1]
             tt = t if isinstance(t, str) else (t.path if isinstance(t, Ref) else "")
-            if tt in ("int", "i", "i4", "i8", "int64", "np.int64", "int32"):
+            tl = tt.lower().replace("np.", "").replace("numpy.", "")
+            if tl in ("i", "i2", "i4", "i8", "l", "q") or tl.startswith(("int", "uint", "long")):
                 return self._trunc(iv(args[0]))
             return args[0]
         if fname in ("np.floor",) and args:
